@@ -130,6 +130,13 @@ REG = {
             "exactly 1 on the first access between clears and by 0 afterwards, clear forces a reload, forked readers sharing the "
             "cache observe equal values and load each index at most once per reader",
             "DESIGN.md §3 C19", TRUST + "; reader-process interleavings are sampled, not enumerated"),
+    "C20": ("fault_enumeration", "fault injection: forked children killed (os._exit) at every mutating file-system event (audit hook) - exhaustive single and pairwise crash points on fixed scenarios, Hypothesis-generated scenarios with random crash sequences",
+            "source formats raw / zip / folder of zips x both copy functions x relative paths x local pre-states (absent, parent, "
+            "user-provided); quick: all single crash points of 12 scenarios + 400 random scenarios with 0-3 crashes; thorough: "
+            "additionally all crash-point pairs; after the crash sequence an uninterrupted call must leave a byte-identical copy "
+            "(or the untouched user folder), a second call performs zero file-system mutations, results are truthful",
+            "DESIGN.md §3 C20", TRUST + "; crash = process death between file-system operations (no power-loss reordering, no "
+            "byte-level torn writes); multi-worker extraction only without crashes"),
 }
 
 NOT_YET = "check not built yet in this session (planned, see DESIGN.md §3)"
